@@ -15,7 +15,7 @@ RULE = (
     "triples and _counter). OrderedSet and IdentitySet: every binary method and operator alias x every "
     "argument kind (set, dict, list with duplicates, iterator, other OrderedSet/IdentitySet, the receiver "
     "itself) x all argument sequences of length <= 3 over 3 elements x 3-4 receivers; all histories of "
-    "length <= 3 over an 11-14-letter alphabet (quick: a seeded third of the length-3 ones); random histories "
+    "length <= 3 over an 11-14-letter alphabet (quick: a seeded fifth of the length-3 ones); random histories "
     "of length 4-8. immutabledict: all argument tuples of length <= 2 (8 argument shapes) x 3 receivers "
     "for union/merge_with, all 9 mutators, |, reflected |, random histories. LRUCache: all histories of "
     "length <= 3 over 9 operations for 2 configurations, random histories of length <= 10 for capacities "
@@ -254,9 +254,9 @@ def gen_cases(rng, tier):
     cases = [dict(c) for c in REGRESSION_CASES]
 
     # ---- OrderedSet: every binary method/operator x every argument kind and sequence
-    inits = [[], [K_LIST, [1, 2, 3]], [K_SET, [1, 2, 3]], [K_OSET, [3, 1, 2, 1]]]
+    inits = [[], [K_LIST, [1, 2, 3]], [K_OSET, [3, 1, 2, 1]]]
     if thorough:
-        inits += [[K_DICT, [2, 1]], [K_ITER, [2, 2, 3]]]
+        inits += [[K_SET, [1, 2, 3]], [K_DICT, [2, 1]], [K_ITER, [2, 2, 3]]]
     for init in inits:
         for a in _oargs([2, 3, 4], 3):
             op_ok = a[0] in (K_SET, K_OSET, K_DICT, K_SELF)  # operator aliases are typed for AbstractSet
@@ -289,10 +289,10 @@ def gen_cases(rng, tier):
     # all short histories
     for n in (1, 2, 3):
         for ops in itertools.product(_O_ALPHA, repeat=n):
-            if n == 3 and not thorough and rng.random() < 0.65:
+            if n == 3 and not thorough and rng.random() < 0.8:
                 continue
             cases.append(_ocase([K_LIST, [1, 2]], [list(o) for o in ops] + [[8]], "oset-hist"))
-    for _ in range(12000 if thorough else 350):
+    for _ in range(12000 if thorough else 250):
         init = rng.choice([[], _rand_oarg(rng, False)])
         ops = [_rand_oop(rng) for _ in range(rng.randint(4, 8))]
         cases.append(_ocase(init, ops, "oset-random"))
@@ -308,15 +308,15 @@ def gen_cases(rng, tier):
         for a in iargs_small:
             for b in range(4):
                 for f in (2, 3):
-                    if f == 3 and a[0] in (IK_LIST, IK_ITER) and len(a[1]) > 1 and not thorough:
-                        continue  # operator with a non-IdentitySet: TypeError whatever the content
+                    if not thorough and (f == 3 and a[0] in (IK_LIST, IK_ITER) and len(a[1]) > 1 or rng.random() < 0.4):
+                        continue  # (operator with a non-IdentitySet: TypeError whatever the content)
                     cases.append(_icase(_IVALS, base, [[8, b, f, 0, a], [6]], "iset-inplace"))
     for n in (1, 2, 3):
         for ops in itertools.product(_I_ALPHA, repeat=n):
-            if n == 3 and not thorough and rng.random() < 0.65:
+            if n == 3 and not thorough and rng.random() < 0.8:
                 continue
             cases.append(_icase(_IVALS, [0, 2], [list(o) for o in ops] + [[6]], "iset-hist"))
-    for _ in range(8000 if thorough else 250):
+    for _ in range(8000 if thorough else 200):
         vals = [rng.randint(0, 1) for _ in range(6)]
         init = [rng.randint(0, 5) for _ in range(rng.randint(0, 4))]
         cases.append(_icase(vals, init, [_rand_iop(rng) for _ in range(rng.randint(4, 8))], "iset-random"))
@@ -326,14 +326,14 @@ def gen_cases(rng, tier):
     for s in selves:
         for n in (0, 1, 2, 3):
             for others in itertools.product(_D_ARGS, repeat=n):
-                if n == 3 and not thorough and rng.random() < 0.75:
+                if n == 3 and not thorough and rng.random() < 0.88:
                     continue
                 cases.append({"in": [IDICT, [s, [[1, 0, n % 2, [list(o) for o in others]], [6]]]], "kind": "idict-union"})
         for w in range(9):
             cases.append({"in": [IDICT, [s, [[0, w, 1, 5], [0, w, 7, 5], [5, 1]]]], "kind": "idict-mutator"})
         for a in _D_ARGS:
             cases.append({"in": [IDICT, [s, [[2, 0, a], [3, 0, a], [4], [2, 1, a], [3, 1, a]]]], "kind": "idict-or"})
-    for _ in range(4000 if thorough else 200):
+    for _ in range(4000 if thorough else 150):
         s = [[rng.randint(0, 4), rng.randint(0, 9)] for _ in range(rng.randint(0, 3))]
         cases.append({"in": [IDICT, [s, [_rand_dop(rng) for _ in range(rng.randint(2, 6))]]], "kind": "idict-random"})
 
@@ -341,10 +341,10 @@ def gen_cases(rng, tier):
     for cap, tn, td in ((1, 1, 2), (2, 0, 1)):
         for n in (1, 2, 3):
             for ops in itertools.product(_L_ALPHA, repeat=n):
-                if n == 3 and not thorough and rng.random() < 0.65:
+                if n == 3 and not thorough and rng.random() < 0.8:
                     continue
                 cases.append({"in": [LRU, [cap, tn, td, 1, [list(o) for o in ops] + [[5]]]], "kind": "lru-hist"})
-    for _ in range(8000 if thorough else 350):
+    for _ in range(8000 if thorough else 250):
         cap = rng.randint(0, 4)
         tn, td = rng.choice([(0, 1), (1, 4), (1, 2), (1, 1), (3, 4)])
         nkeys = rng.choice([3, 5, 8])
